@@ -102,6 +102,7 @@ type Engine struct {
 	crcExactMode bool
 	curIns      ssa.Instruction
 	maxLoop     int
+	hostDirs    map[string]bool
 	divDefs     map[[3]uint64][2]*Term
 	defOf       map[*Term]*Term
 	sparseAlloc bool
